@@ -1,1 +1,142 @@
-import Soa.Model.Exec
+import Soa.Lemmas.Positions
+import Soa.Props.C01
+import Soa.Props.C03
+/-!
+# C10 — pointer bundles are faithful field-wise raw pointers  (**partial**)
+
+A pointer bundle is one raw pointer per field; in the model, one element position per leaf
+(an `Int`, so that `wrapping_*` arithmetic may leave `0..len` transiently) plus a null flag.
+Every method of `ptr.rs` applies the same pointer operation to every field.
+
+Proved here, for every shape: moving a bundle by any sequence of element offsets moves every
+component by the same total (`uniform`, `offsets_sum`), so a bundle obtained at position
+`base` and moved in bounds designates element `base + Σ offsets` in every field; reading
+there returns exactly that row (`read_row`); a pointer write replaces exactly that row,
+returns nothing and destroys nothing — neither the overwritten slot nor the written value
+(`write_row`, `write_conserves`); `is_null` is "some component is null" (`is_null_iff`).
+
+Not expressible in this model (hence *partial*): alignment, volatility, provenance and
+allocator behaviour — `read`/`read_volatile`/`read_unaligned` (and the writes) are the same
+function here; `from_raw_parts` round trips are the identity by construction.  Those are
+covered by the correspondence on the real code only (ids read, ledger, capacities).
+-/
+namespace Soa.C10
+open Soa View
+
+/-- a pointer bundle: per leaf an element position relative to its field array and a null flag -/
+inductive Bundle where
+  | leaf (pos : Int) (null : Bool)
+  | nest (fs : List Bundle)
+
+/-- `add`/`sub`/`offset` and the wrapping variants: the same count on every field -/
+def Bundle.shift (k : Int) : Bundle → Bundle
+  | .leaf p n => .leaf (p + k) n
+  | .nest fs => .nest (shiftL k fs)
+where shiftL (k : Int) : List Bundle → List Bundle
+  | [] => []
+  | b :: bs => b.shift k :: shiftL k bs
+
+/-- every component designates position `p` -/
+def Bundle.at (p : Int) : Bundle → Prop
+  | .leaf q _ => q = p
+  | .nest fs => ∀ b ∈ fs, b.at p
+
+/-- `is_null()`: `false || self.f.is_null() || …` -/
+def Bundle.isNull : Bundle → Bool
+  | .leaf _ n => n
+  | .nest fs => isNullL fs
+where isNullL : List Bundle → Bool
+  | [] => false
+  | b :: bs => b.isNull || isNullL bs
+
+/-- some component is null -/
+def Bundle.someNull : Bundle → Prop
+  | .leaf _ n => n = true
+  | .nest fs => someNullL fs
+where someNullL : List Bundle → Prop
+  | [] => False
+  | b :: bs => b.someNull ∨ someNullL bs
+
+/-- **uniformity**: moving a bundle whose components all designate `p` by `k` gives a bundle
+    whose components all designate `p + k` — for every shape -/
+theorem uniform (k p : Int) : ∀ b : Bundle, b.at p → (b.shift k).at (p + k)
+  | .leaf q n, h => by simp only [Bundle.at] at h; simp [Bundle.shift, Bundle.at, h]
+  | .nest fs, h => by
+    simp only [Bundle.at] at h
+    simp only [Bundle.shift, Bundle.at]
+    exact go fs h
+where go : ∀ fs : List Bundle, (∀ b ∈ fs, b.at p) → ∀ b ∈ Bundle.shift.shiftL k fs, b.at (p + k)
+  | [], _ => by simp [Bundle.shift.shiftL]
+  | b :: bs, h => by
+    intro x hx
+    simp only [Bundle.shift.shiftL, List.mem_cons] at hx
+    rcases hx with rfl | hx
+    · exact uniform k p b (h b (by simp))
+    · exact go bs (fun y hy => h y (by simp [hy])) x hx
+
+/-- any sequence of offsets (`add`, `sub`, `offset`, wrapping or not, in any order): the
+    bundle designates `base + Σ offsets` in every field -/
+theorem offsets_sum (base : Int) : ∀ (ks : List Int) (b : Bundle), b.at base →
+    (ks.foldl (fun b k => b.shift k) b).at (base + ks.sum)
+  | [], b, h => by simpa using h
+  | k :: ks, b, h => by
+    have := offsets_sum (base + k) ks (b.shift k) (uniform k base b h)
+    simp only [List.foldl_cons, List.sum_cons]
+    rw [← Int.add_assoc]; exact this
+
+/-- `is_null()` is true exactly when one of the component pointers is null -/
+theorem is_null_iff : ∀ b : Bundle, b.isNull = true ↔ b.someNull
+  | .leaf _ n => by simp [Bundle.isNull, Bundle.someNull]
+  | .nest fs => by
+    simp only [Bundle.isNull, Bundle.someNull]
+    exact go fs
+where go : ∀ fs : List Bundle, Bundle.isNull.isNullL fs = true ↔ Bundle.someNull.someNullL fs
+  | [] => by simp [Bundle.isNull.isNullL, Bundle.someNull.someNullL]
+  | b :: bs => by
+    simp only [Bundle.isNull.isNullL, Bool.or_eq_true, Bundle.someNull.someNullL]
+    rw [is_null_iff b, go bs]
+
+/-- **read**: reading every field at position `p` of a lockstep container yields exactly the
+    element at `p` (a bitwise copy: no event, the container is unchanged) -/
+theorem read_row (c : Cols) (n p : Nat) (hc : c.lock n) (hp : p < n) :
+    ∃ r, c.rows[p]? = some r ∧ rowIds c p = r.ids :=
+  rowIds_eq c n p hc hp
+
+/-- **write**: `ptr.write(v)` at an in-bounds position stores `v` in exactly that element
+    (every other row untouched), destroys nothing and returns nothing to destroy: the
+    overwritten slot is handed out bitwise (the harness takes it out first) -/
+theorem write_row (dr : Bool) (c e : Cols) (n p : Nat) (hc : c.lock n) (he : e.lock 1) (hs : c.same e) (hp : p < n) :
+    (Model.replace dr c p e).panicked = false ∧ (Model.replace dr c p e).ev.drops = [] ∧
+    (Model.replace dr c p e).ev.dropT = [] ∧
+    (Model.replace dr c p e).st.rows = c.rows.take p ++ e.rows ++ c.rows.drop (p + 1) := by
+  have h := C01.replace dr p hc he hs
+  have hlen := rows_len n c hc
+  have hspec : Spec.replace dr c.rows p e.rows =
+      { st := c.rows.take p ++ e.rows ++ c.rows.drop (p + 1), ret := some ((c.rows.drop p).take 1) } := by
+    simp [Spec.replace, Spec.std, replaceOp, PolyOp.ofTotal_run, hlen, hp]
+  have hpan : (Model.replace dr c p e).panicked = false := by rw [h.panicked, hspec]
+  refine ⟨hpan, ?_, ?_, by rw [h.st, hspec]⟩
+  · unfold Model.replace at hpan ⊢
+    rw [firstLen_lock c n hc] at hpan ⊢
+    have : ¬ p ≥ n := by omega
+    simp only [this, ↓reduceIte] at hpan ⊢
+    split <;> simp_all
+  · unfold Model.replace at hpan ⊢
+    rw [firstLen_lock c n hc] at hpan ⊢
+    have : ¬ p ≥ n := by omega
+    simp only [this, ↓reduceIte] at hpan ⊢
+    split <;> simp_all
+
+/-- a pointer write neither leaks nor duplicates: old slot + new container = old container + value -/
+theorem write_conserves (dr : Bool) (c e : Cols) (n p : Nat) (hc : c.lock n) (he : e.lock 1) (hs : c.same e) :
+    C03.Conserves c e (Model.replace dr c p e) :=
+  C03.replace dr p hc he hs
+
+/-! non-vacuity -/
+def exB : Bundle := .nest [.leaf 2 false, .nest [.leaf 2 false, .leaf 2 false]]
+example : exB.at 2 := by simp [exB, Bundle.at]
+example : ([3, -4, 1].foldl (fun b k => b.shift k) exB).at 2 := by
+  have := offsets_sum 2 [3, -4, 1] exB (by simp [exB, Bundle.at])
+  simpa using this
+
+end Soa.C10
